@@ -5,7 +5,7 @@ From TV Require Import Base.Prelude Base.C09_Lib
   Spec.C09_Poly1305 Spec.C09_ChaCha Spec.C09_ChaChaPoly
   Base.C09_Oracle Gen.C09_KDF Model.C09_KeyCalc Spec.C09_KDF Spec.C09_KeyCalc
   Proofs.C09_Bits32 Proofs.C09_Poly1305 Proofs.C09_ChaCha Proofs.C09_ChaChaPoly Proofs.C09_KDF Proofs.C09_KeyCalc
-  Gen.C09_RC4 Gen.C09_AesModes Spec.C09_Modes Proofs.C09_Modes
+  Gen.C09_RC4 Gen.C09_AesModes Spec.C09_Modes Proofs.C09_Modes Gen.C09_GCM Proofs.C09_GCM Proofs.C09_CBC
   Toy.C09_ToyOracle.
 Import ListNotations.
 Open Scope list_scope.
@@ -233,9 +233,8 @@ Theorem rc4_decrypt_encrypt : forall st pt,
 Proof. exact rc4_dec_enc_code. Qed.
 
 (* CBC (SP 800-38A 6.2) over ANY block function E with left inverse D on bs-byte blocks.  These two are
-   statements about Spec.C09_Modes.cbc_*_blocks, which the correspondence ties to Python_AES and
-   Python_TripleDES on every run (cbc_eq_spec for the generated Gen.C09_AesModes.cbc_encrypt is checked by
-   evaluation only, not proved) *)
+   statements about Spec.C09_Modes.cbc_*_blocks; cbc_eq_spec below ties them to the generated Python_AES code,
+   the correspondence ties them to Python_TripleDES *)
 Theorem cbc_dec_enc : forall (E D : list Z -> list Z) (bs : nat), (0 < bs)%nat ->
   (forall b, List.length b = bs -> D (E b) = b) -> (forall b, List.length b = bs -> List.length (E b) = bs) ->
   forall blocks iv, blocks_ok bs blocks -> List.length iv = bs ->
@@ -264,3 +263,34 @@ Example ctr_stream_split_aligned_example :
   ctr_two_calls toy_block_oracle (repeat 1 16) (repeat 2 16) (repeat 7 16) [6; 7; 8; 9; 10; 11; 12]
   = ctr_one_call toy_block_oracle (repeat 1 16) (repeat 2 16) (repeat 7 16) [6; 7; 8; 9; 10; 11; 12].
 Proof. exact ctr_split_aligned_example. Qed.
+
+(* ---- (f) AES-GCM ------------------------------------------------------------------------- *)
+(* two encryptions from the same counter state give the data back (generated Python_AES_CTR.encrypt, any
+   block-cipher oracle that returns bytes): the basis of every AEAD round trip below *)
+Theorem ctr_encrypt_involution : forall O, (forall k b, all_bytes (bo_enc O k b) = true) ->
+  forall st m st1 c, all_bytes m = true -> ctr_encrypt O st m = Ok (st1, c) ->
+  ctr_encrypt O st c = Ok (st1, m) /\ zlen c = zlen m /\ all_bytes c = true.
+Proof. exact ctr_involution. Qed.
+
+(* AESGCM.open returns p exactly for the outputs of AESGCM.seal on p (same object, nonce, AAD): purely
+   structural -- holds for every block-cipher oracle, nothing about GHASH or AES is assumed *)
+Theorem gcm_open_iff_seal : forall O, (forall k b, all_bytes (bo_enc O k b) = true) ->
+  forall g nonce c a p, all_bytes c = true -> all_bytes p = true ->
+  (exists g1, gcm_open O g nonce c a = Ok (g1, Some p)) <-> (exists g2, gcm_seal O g nonce p a = Ok (g2, c)).
+Proof. exact gcm_open_iff_seal_code. Qed.
+
+(* the generated Python_AES (CBC) wrapper = SP 800-38A CBC over the block oracle, incl. the IV left in the object for the
+   next call; lengths that are not a multiple of 16 are refused *)
+Theorem cbc_eq_spec : forall O key iv data,
+  (forall b, List.length b = 16%nat -> List.length (bo_enc O key b) = 16%nat /\ all_bytes (bo_enc O key b) = true) ->
+  (forall b, List.length b = 16%nat -> List.length (bo_dec O key b) = 16%nat /\ all_bytes (bo_dec O key b) = true) ->
+  blk_ok iv -> all_bytes data = true -> zlen data mod 16 = 0 ->
+  cbc_encrypt O (mkAESCBC key iv) data =
+    (let '(iv', ct) := cbc_encrypt_spec (bo_enc O key) 16 iv data in Ok (mkAESCBC key iv', ct)) /\
+  cbc_decrypt O (mkAESCBC key iv) data =
+    (let '(iv', pt) := cbc_decrypt_spec (bo_dec O key) 16 iv data in Ok (mkAESCBC key iv', pt)).
+Proof. exact cbc_both_ok. Qed.
+
+Theorem cbc_refuses_partial_blocks : forall O st data, zlen data mod 16 <> 0 ->
+  cbc_encrypt O st data = Err AssertionError /\ cbc_decrypt O st data = Err AssertionError.
+Proof. exact cbc_bad_length. Qed.
